@@ -152,6 +152,18 @@ fn number(min: Option<f64>, emin: Option<f64>, max: Option<f64>, emax: Option<f6
 manual_schema!(ExclMin, f64, "ExclMin", || number(None, Some(0.0), Some(1.0), None, None));
 manual_schema!(ExclMax, f64, "ExclMax", || number(Some(0.0), None, None, Some(1.0), None));
 manual_schema!(ExclBoth, f64, "ExclBoth", || number(None, Some(-1.0), None, Some(1.0), None));
+fn integer(min: Option<f64>, emin: Option<f64>, max: Option<f64>, emax: Option<f64>, mult: Option<f64>) -> SchemaObject {
+    SchemaObject {
+        instance_type: Some(InstanceType::Integer.into()),
+        format: Some("int64".into()),
+        number: Some(Box::new(NumberValidation { minimum: min, exclusive_minimum: emin, maximum: max, exclusive_maximum: emax, multiple_of: mult })),
+        ..Default::default()
+    }
+}
+manual_schema!(IntExclMin, i64, "IntExclMin", || integer(None, Some(0.0), Some(10.0), None, None));
+manual_schema!(IntExclMax, i64, "IntExclMax", || integer(Some(-5.0), None, None, Some(5.0), None));
+manual_schema!(IntExclBoth, i64, "IntExclBoth", || integer(None, Some(-3.0), None, Some(100.0), None));
+manual_schema!(IntMultipleOf, i64, "IntMultipleOf", || integer(Some(0.0), None, Some(30.0), None, Some(3.0)));
 manual_schema!(MultipleOf, f64, "MultipleOf", || number(Some(0.0), None, Some(10.0), None, Some(2.5)));
 manual_schema!(XExt, String, "XExt", || {
     let mut o = SchemaObject { instance_type: Some(InstanceType::String.into()), ..Default::default() };
